@@ -350,7 +350,7 @@ pub fn run(env: &Env) -> i32 {
     }
     replay_saved(env, &mut rep, &exec);
     let prof = profile();
-    let n = env.cases(300, 12000);
+    let n = env.cases(2500, 20000);
     let nsched = env.tier.pick(4, 20);
     let r = run_cases(
         env,
